@@ -91,4 +91,27 @@ example : (toOut (present 1 [.allowIps [1], .cache .full])).kccNone = true := by
 example : fileExt [47, 115, 46, 112, 114, 105, 118, 97, 116, 101] = some PRIVATE := by decide +kernel
 example : fileExt (Sanitize.pdecode [47, 115, 37, 50, 69, 112, 114, 105, 118, 97, 116, 37, 54, 53]) = some PRIVATE := by decide +kernel
 
+theorem mountedOf_append (a b : List LineItem) : mountedOf (a ++ b) = mountedOf a ++ mountedOf b := by
+  simp [mountedOf, List.filterMap_append]
+
+/-- **the guards hold whatever else stands on the `!> ` line** — mounted directives and names nobody mounted, before and
+after the guard -/
+theorem guards_hold_on_any_line (addr : Nat) (pre post : List LineItem) :
+    (∀ ips, ips.contains addr = false → (presentLine addr (pre ++ .known (.allowIps ips) :: post)).body = 0) ∧
+    (presentLine addr (pre ++ .known .hide :: post)).body = 0 := by
+  constructor
+  · intro ips hn
+    simp only [presentLine, mountedOf_append]
+    have : mountedOf (.known (.allowIps ips) :: post) = .allowIps ips :: mountedOf post := by simp [mountedOf]
+    rw [this]
+    exact allow_ips_holds addr _ _ ips hn
+  · simp only [presentLine, mountedOf_append]
+    have : mountedOf (.known .hide :: post) = .hide :: mountedOf post := by simp [mountedOf]
+    rw [this]
+    exact hidden_never_delivered addr _ _
+
+/-- ending the line at the first unmounted name (the seeded change C17-8) delivers the file: `!> zz &> hide` -/
+example : (present 7 (mountedUntilUnknown [.unknown, .known .hide])).body = 1 ∧
+    (presentLine 7 [.unknown, .known .hide]).body = 0 := by decide
+
 end Guard
